@@ -51,7 +51,7 @@ func universe() *DAG {
 	b1 := d.Blob("B1", MTConfig, "{}")
 	b2 := d.Blob("B2", MTLayer, "abcd")
 	m1 := d.Manifest("M1", b1, []int{b2}, ManifestOpt{Subject: -1})
-	m2 := d.Manifest("M2", b1, nil, ManifestOpt{Subject: m1, ArtifactType: "application/vnd.test.sig", Annotations: map[string]string{"k": "v"}})
+	m2 := d.Manifest("M2", b1, nil, ManifestOpt{Subject: m1, ArtifactType: "application/vnd.test.sig+json", Annotations: map[string]string{"k": "v"}})
 	// a second referrer of M1 with another artifact type that sorts BEFORE M2 in the registry's
 	// (digest-ordered) listing, so that a client-side filter meets a page without a match first
 	for i := 0; ; i++ {
@@ -417,8 +417,8 @@ func battery(ctx context.Context, d *DAG, repo *remote.Repository, g *Registry, 
 	// Predecessors / Referrers of M1: exactly the stored manifests naming it
 	var wantRefs, wantSig []string
 	if st.mans[3] {
-		wantRefs = append(wantRefs, d.Nodes[3].Desc.Digest.String()+"|application/vnd.test.sig|v")
-		wantSig = append(wantSig, d.Nodes[3].Desc.Digest.String()+"|application/vnd.test.sig|v")
+		wantRefs = append(wantRefs, d.Nodes[3].Desc.Digest.String()+"|application/vnd.test.sig+json|v")
+		wantSig = append(wantSig, d.Nodes[3].Desc.Digest.String()+"|application/vnd.test.sig+json|v")
 	}
 	if st.mans[4] {
 		wantRefs = append(wantRefs, d.Nodes[4].Desc.Digest.String()+"|application/vnd.test.other|"+d.Nodes[4].Annotations["k"])
@@ -439,14 +439,14 @@ func battery(ctx context.Context, d *DAG, repo *remote.Repository, g *Registry, 
 	if fmt.Sprint(render(preds)) != fmt.Sprint(wantRefs) {
 		return "Predecessors does not reflect the registry's state", fmt.Sprintf("got %v want %v (registry says %v)", render(preds), wantRefs, render(g.Repo(repoName).ReferrersOf(m1.Desc.Digest)))
 	}
-	for _, at := range []string{"application/vnd.test.sig", "application/vnd.test.none"} {
+	for _, at := range []string{"application/vnd.test.sig+json", "application/vnd.test.none"} {
 		var got []ocispec.Descriptor
 		err := repo.Referrers(ctx, m1.Desc, at, func(r []ocispec.Descriptor) error { got = append(got, r...); return nil })
 		if err != nil {
 			return "Referrers failed on a fault-free exchange", err.Error()
 		}
 		w := wantSig
-		if at != "application/vnd.test.sig" {
+		if at != "application/vnd.test.sig+json" {
 			w = nil
 		}
 		if fmt.Sprint(render(got)) != fmt.Sprint(w) {
